@@ -94,7 +94,11 @@ def run_case(case, rep, record=True):
             nops = n + 1
             if op[0] == "x":
                 # Gymnasium's keyword-only reset arguments must be accepted
-                out = env.reset(seed=n) if n % 3 == 0 else (env.reset(options={}) if n % 3 == 1 else env.reset())
+                # (seed: any non-negative Python int - Gymnasium's documented domain, e.g. time.time_ns())
+                rseed = RESET_SEEDS[(5 * n + len(case["ops"])) % len(RESET_SEEDS)]
+                out = env.reset(seed=rseed) if n % 2 == 0 else (env.reset(options={}) if n % 4 == 1 else env.reset())
+                if record and n % 2 == 0:
+                    rep.count("reset(seed>=2**32)" if rseed >= 2**32 else "reset(seed<2**32)")
                 if not isinstance(out, tuple) or len(out) != 2 or not isinstance(out[1], dict):
                     raise Failure("C10:reset-tuple", f"reset returned {type(out)}")
                 check_obs(env, scn, out[0], modes, "reset")
@@ -214,6 +218,10 @@ def expect_modes(env, modes, where):
         res = env.step(a)
         check_step_tuple(res, f"{where} step {k}")
         check_obs(base, base.scenario, np.asarray(res[0]), modes, f"{where} step {k}")
+
+
+RESET_SEEDS = [0, 1, 7, 2**31 - 1, 2**31, 2**32 - 1, 2**32, 2**32 + 12345, 2**53 + 1, 2**63 - 1, 2**63, 2**64 + 3,
+               1759561200123456789, 2**100 + 9]
 
 
 def entry_points(rep, tier):
